@@ -559,6 +559,12 @@ func (d *c12Dag) transient(x *xplore.Ctx, viol func(sig, detail string)) string 
 				if !bytes.Equal(got, want) {
 					viol("transient-eof-truncated", fmt.Sprintf("%s: loads %v failed; EOF after %d of %d bytes", d.c, failedAt, len(got), len(want)))
 				}
+				// in a file whose nodes record every child's size each block is
+				// loaded exactly when a Read needs it: a load that fails makes
+				// THAT Read report the error, however the retry goes
+				if d.sized && d.c.Kind == "file" && errsSeen < len(failedAt) {
+					viol("transient-error-unreported", fmt.Sprintf("%s: loads %v failed during a sequential read from offset %d, the Read calls reported %d error(s) and then EOF with the complete content", d.c, failedAt, start, errsSeen))
+				}
 				break
 			}
 			if err != nil {
